@@ -336,6 +336,12 @@ class IsolationOracle(Oracle):
             type_edit = getattr(world, "last_type", None)
             if type_edit and type_edit[0] == h and key == type_edit[1] and ok_op:
                 continue
+            kparts = key.split("/")
+            if kparts[0] in rawgeoh5.KINDS and (h, kparts[1]) in self.deferred_links and all(x.startswith("children:") for x in subs):
+                # the child link dropped by an earlier detach-and-attach-again is restored by whichever later save walks that
+                # parent (a move of an ancestor, the close)
+                self.deferred_links.discard((h, kparts[1]))
+                continue
             verdict = self.allowed(key, subs, touch, parents, created, removed, zombie, used_types, touched_types, concat_groups, model, root_new, type_intro)
             if not verdict:
                 kind = op["k"] if ok_op else f"{op['k']}:{outcome.split(':')[0]}"
